@@ -89,10 +89,12 @@ PROPS = {
     'C12': {'functions': ['info.SectionType.getsectioninfo', 'info.AbstractType.getsubtype',
                           'info.AbstractType.hassubtype', 'info.AbstractType.isabstract',
                           'info.SectionType.isabstract', 'info.SectionType.gettype', 'loader.ConfigLoader.startSection',
-                          CFG + 'handle_import'], 'standin': True},
+                          CFG + 'handle_import', 'info.createDerivedSchema', 'info.AbstractType.__init__',
+                          'info.AbstractType.addsubtype', 'info.SchemaType.addtype', 'info.SchemaType.createSectionType',
+                          'info.SchemaType.addComponent', 'info.SchemaType.hasComponent'], 'standin': True},
     # frame and ownership obligations of every function of a load that touches schema objects: the
     # modifies clauses name only matcher / loader state, results are fresh containers
-    'C13': {'functions': INFO_MATCH + MATCHER + LOADER_CFG, 'standin': True},
+    'C13': {'functions': INFO_MATCH + MATCHER + LOADER_CFG + ['info.createDerivedSchema'], 'standin': True},
     'C14': {'functions': CMDLINE, 'standin': True},
     'C15': {'functions': [CFG + n for n in ('_normalize_case', 'nextline', 'start_section', 'end_section',
                                             'parse', 'handle_define')] + ['matcher.BaseMatcher.addValue'],
